@@ -366,7 +366,17 @@ inline int driverMain(int argc, char **argv, const char *driver,
     c.caseId = k;
     prog[0] = k;
     c.cases++;
+    const uint64_t poisonBefore =
+        vq::counts().poison.load(std::memory_order_relaxed);
     fn(c);
+    const uint64_t poisonAfter =
+        vq::counts().poison.load(std::memory_order_relaxed);
+    if (poisonAfter != poisonBefore)
+      c.violation("C19", std::string("indeterminate-value-read/") + driver,
+                  "a default-constructed (indeterminate) scalar was read " +
+                      std::to_string(poisonAfter - poisonBefore) +
+                      " time(s) during this case: the code relies on T() "
+                      "being zero");
   };
   if (only >= 0) {
     runOne((uint64_t)only);
